@@ -1062,6 +1062,12 @@ func (s *sim) oracle(rng *vh.Rng, how string, ref probeRef) {
 					continue
 				}
 			}
+			if s.treeDamaged && !eq && err == nil && sameEvs(got, want) {
+				// exact although the hull-level model predicted a loss (a stale hull): a rebuild of the chunk — which a root that
+				// cannot be used triggers — has extended the hull meanwhile; admitted by the same relation
+				res.Dist(s.sect, "damaged-tree:exact-after-rebuild")
+				continue
+			}
 			if s.treeDamaged && !eq && err == nil && len(got) < len(want) {
 				// MODEL (as a relation): the snapshot's roots point into a tree file whose content is gone; which window a
 				// look-up through such a root yields depends on what the asynchronous index (re)builds of other chunks have
